@@ -125,6 +125,10 @@ func Run(c *core.Ctx, replay string) (*core.Result, error) {
 	res.Evaluations = len(recs)
 	res.TracesVsImpl = len(recs)
 	res.Nontrivial = len(kinds)
+	// coverage guard: a generator refusing (or breaking on) most packages would silently empty the check
+	if replay == "" && skipped*3 > len(progs) {
+		return nil, core.Inconcl("%d of %d packages were left out (generator refusal or generated code that does not compile): the check no longer covers its universe", skipped, len(progs))
+	}
 	res.Rule = fmt.Sprintf("%d seeded random packages (unions as struct fields, in named slices and named maps, nested structs, struct / named basic / named slice members, members shared by two unions, json-tagged / json:\"-\" / unexported siblings, enums, time, generics, sub-package and std-lib types), %d reflection-built values per top-level type (nil and empty slices and maps, zero values, unicode strings), each marshalled and unmarshalled by a binary compiled with the generated wrappers; distinct = distinct (type, document)", len(progs)-skipped, nVals)
 	res.Extra = map[string]any{"programs_left_out": skipped}
 	return res, nil
